@@ -117,9 +117,14 @@ def parse_duration(s):
 
     return number * time_map[unit]
 
-def parse_date(s):
+def parse_date(s, _date_re=re.compile(r"(\d{4})-(\d{2})-(\d{2})", re.ASCII)):
     # return seconds-since-epoch for the UTC midnight that starts the given
     # day
+    m = _date_re.fullmatch(s)
+    if not m:
+        # iso_utc_time_to_seconds() matches a prefix: without this check
+        # "2009-01-16 10:20:30" was read as that time of day, not midnight
+        raise ValueError(s, "not a YYYY-MM-DD date")
     return int(iso_utc_time_to_seconds(s + "T00:00:00"))
 
 def format_delta(time_1, time_2):
